@@ -44,8 +44,9 @@ type perIPConn struct {
 
 	perIPConnCounter *perIPConnCounter
 
-	ip   uint32
-	lock sync.Mutex
+	ip     uint32
+	lock   sync.Mutex
+	closed bool
 }
 
 type perIPTLSConn struct {
@@ -53,8 +54,9 @@ type perIPTLSConn struct {
 
 	perIPConnCounter *perIPConnCounter
 
-	ip   uint32
-	lock sync.Mutex
+	ip     uint32
+	lock   sync.Mutex
+	closed bool
 }
 
 func acquirePerIPConn(conn net.Conn, ip uint32, counter *perIPConnCounter) net.Conn {
@@ -70,6 +72,7 @@ func acquirePerIPConn(conn net.Conn, ip uint32, counter *perIPConnCounter) net.C
 		c := v.(*perIPTLSConn) //nolint:forcetypeassert
 		c.Conn = tlsConn
 		c.ip = ip
+		c.closed = false
 		return c
 	}
 
@@ -84,35 +87,40 @@ func acquirePerIPConn(conn net.Conn, ip uint32, counter *perIPConnCounter) net.C
 	c := v.(*perIPConn) //nolint:forcetypeassert
 	c.Conn = conn
 	c.ip = ip
+	c.closed = false
 	return c
 }
 
 func (c *perIPConn) Close() error {
+	// The embedded Conn is left in place: the serving goroutine reads it
+	// (through the promoted methods) while Shutdown closes idle connections.
 	c.lock.Lock()
-	cc := c.Conn
-	c.Conn = nil
+	closed := c.closed
+	c.closed = true
 	c.lock.Unlock()
 
-	if cc == nil {
+	if closed {
 		return nil
 	}
 
-	err := cc.Close()
+	err := c.Conn.Close()
 	c.perIPConnCounter.Unregister(c.ip)
 	return err
 }
 
 func (c *perIPTLSConn) Close() error {
+	// The embedded Conn is left in place: the serving goroutine reads it
+	// (through the promoted methods) while Shutdown closes idle connections.
 	c.lock.Lock()
-	cc := c.Conn
-	c.Conn = nil
+	closed := c.closed
+	c.closed = true
 	c.lock.Unlock()
 
-	if cc == nil {
+	if closed {
 		return nil
 	}
 
-	err := cc.Close()
+	err := c.Conn.Close()
 	c.perIPConnCounter.Unregister(c.ip)
 	return err
 }
